@@ -58,6 +58,7 @@ struct Run
 	std::vector<std::unique_ptr<tcp::endpoint>> teps; std::vector<std::unique_ptr<udp::endpoint>> ueps;
 	std::string err;
 	bool in_call = false; bool throw_next = false; bool threw = false;
+	long long sync_bytes = 0; // bytes obtained by the scenarios' synchronous (non-blocking) reads
 	// control connection (C12)
 	std::unique_ptr<tcp::socket> ctl_c, ctl_s; std::unique_ptr<tcp::acceptor> ctl_a;
 	long long ctl_got = 0, ctl_wrote = 0; bool ctl_bad = false; std::vector<unsigned char> ctl_rbuf, ctl_wbuf;
@@ -285,7 +286,8 @@ Topology topo_for(int id)
 	for (int i = 0; i < 4; ++i) t.nodes.push_back(NodeSpec());
 	t.net[{-1, -1}] = {QSpec{0, 20000, 0}};
 	if (id == 6) t.net[{0, 1}] = {QSpec{50000, 5000, 0}};
-	if (id == 15 || id == 16 || id == 19) { t.net[{0, 1}] = {QSpec{400000, 5000, 0}, QSpec{60000, 10000, 6000}}; }
+	if (id == 15 || id == 16) { t.net[{0, 1}] = {QSpec{400000, 5000, 0}, QSpec{60000, 10000, 6000}}; }
+	if (id == 19) { t.net[{0, 1}] = {QSpec{400000, 5000, 0}, QSpec{20000, 10000, 3100}}; } // two-segment bottleneck, 75 ms per segment: bursts overflow it
 	if (id == 18) { t.net[{0, 1}] = {QSpec{800000, 2000, 0}, QSpec{300000, 3000, 0}}; t.nodes[0].qout = {QSpec{1000000, 1000, 0}}; }
 	if (id == 17) t.net[{0, 1}] = {QSpec{200000, 10000, 20000}};
 	DnsEntry a; a.lat_us = 30000; a.addrs = {sa::ip::make_address_v4("10.9.0.1")}; t.dns["a.test"] = a;
@@ -431,16 +433,17 @@ std::vector<int> build(Run& R, int id, int param, bool with_control)
 			R.accept(acc, 0, srv, [r, srv, alive](boost::system::error_code const& e, std::size_t) {
 				if (e || !alive(srv)) return;
 				r->objs[std::size_t(srv)].ts->non_blocking(true);
-				for (int i = 1; i <= 12; ++i) r->at(30 * i, [r, srv, alive]() {
+				for (int i = 1; i <= 40; ++i) r->at(30 * i, [r, srv, alive]() {
 					if (!alive(srv) || !r->objs[std::size_t(srv)].ts->is_open()) return;
 					auto& b = r->buf(20000); boost::system::error_code e2;
-					r->objs[std::size_t(srv)].ts->read_some(sa::buffer(b.data(), b.size()), e2);
+					std::size_t const got = r->objs[std::size_t(srv)].ts->read_some(sa::buffer(b.data(), b.size()), e2);
+					if (!e2) r->sync_bytes += (long long)got;
 				});
 			});
 			R.tcp_connect(cli, sep, [r, cli, alive](boost::system::error_code const& e, std::size_t) {
 				if (e || !alive(cli)) return;
 				r->objs[std::size_t(cli)].ts->non_blocking(true);
-				for (int i = 0; i < 6; ++i) r->at(25 * i + 1, [r, cli, alive]() {
+				for (int i = 0; i < 16; ++i) r->at(25 * i + 1, [r, cli, alive]() {
 					if (!alive(cli) || !r->objs[std::size_t(cli)].ts->is_open()) return;
 					auto& b = r->buf(9000, 0x33); boost::system::error_code e2;
 					r->objs[std::size_t(cli)].ts->write_some(sa::buffer(b.data(), b.size()), e2);
@@ -465,7 +468,8 @@ std::vector<int> build(Run& R, int id, int param, bool with_control)
 				R.at(40 + 20 * i, [r, rx, alive]() {
 					if (!alive(rx) || !r->objs[std::size_t(rx)].us->is_open()) return;
 					auto& b = r->buf(900); boost::system::error_code e2; udp::endpoint from;
-					r->objs[std::size_t(rx)].us->receive_from(sa::buffer(b.data(), b.size()), from, 0, e2);
+					std::size_t const got = r->objs[std::size_t(rx)].us->receive_from(sa::buffer(b.data(), b.size()), from, 0, e2);
+					if (!e2) r->sync_bytes += (long long)got;
 				});
 			targets = {rx, tx};
 			break;
@@ -526,7 +530,9 @@ struct Outcome
 	int boundaries = 0; std::vector<std::vector<int>> outstanding_at; std::vector<long long> boundary_time; std::vector<long long> run_time; // per sentinel (baseline)
 	std::vector<std::size_t> boundary_events; int ntargets = 0;
 	std::vector<int> inflight_at; // packets in flight per boundary (baseline)
-	bool second_applied = false;
+	std::vector<int> resend_pending_at; // per boundary (baseline): segments whose drop has been reported and that have not been transmitted again yet
+	bool second_applied = false, move_with_resend_pending = false;
+	long long main_end = 0, bytes_read = 0; std::size_t nevents = 0; // at quiescence of the main run
 };
 
 struct Second { int d = -1, kind = 0, obj = 0; };
@@ -577,6 +583,8 @@ Outcome run_scn(int id, int param, int k, int kind, int objsel, bool c12, Outcom
 		catch (std::exception const& e) { threw_other = true; R.fail(std::string("an unexpected exception came out of run(): ") + e.what()); }
 		if (R.threw && !threw) R.fail("an exception thrown by a user handler did not propagate out of run()");
 		long long const main_end = now_ns();
+		out.main_end = main_end; out.nevents = w.events.size(); out.bytes_read = R.sync_bytes;
+		for (auto const& sp : R.sents) if (sp->count == 1 && sp->ec == 0 && (sp->op == OP_READ || sp->op == OP_URECV || sp->op == OP_URECVFROM)) out.bytes_read += (long long)sp->n;
 		if (R.throw_next) { R.throw_next = false; R.iv_skipped = true; } // no user handler ran after the boundary: nothing to throw from
 		(void)threw_other;
 		out.skipped = out.skipped || R.iv_skipped || (k >= 0 && !R.iv_done);
@@ -594,6 +602,22 @@ Outcome run_scn(int id, int param, int k, int kind, int objsel, bool c12, Outcom
 				cum[i + 1] = fl;
 			}
 			for (auto pos : R.boundary_events) out.inflight_at.push_back(cum[std::min(pos, w.events.size())]);
+			{
+				// segments (sender endpoint, sequence number) whose latest event is a drop report
+				std::map<std::pair<std::string, std::uint64_t>, bool> dropped_last;
+				std::size_t bi = 0; int pending = 0;
+				for (std::size_t i = 0; i <= w.events.size(); ++i)
+				{
+					while (bi < R.boundary_events.size() && R.boundary_events[bi] <= i) { out.resend_pending_at.push_back(pending); ++bi; }
+					if (i == w.events.size()) break;
+					TapEvent const& e = w.events[i]; TapInfo const& ti = w.taps[std::size_t(e.tap)];
+					if (e.type != 5) continue;
+					auto key = std::make_pair(e.from.address().to_string() + ":" + std::to_string(e.from.port()), e.seq);
+					if (e.kind == 2 && e.outermost) { if (!dropped_last[key]) { dropped_last[key] = true; ++pending; } }
+					else if (e.kind == 0 && ti.role == 0) { if (dropped_last[key]) { dropped_last[key] = false; --pending; } }
+				}
+				while (out.resend_pending_at.size() < R.boundary_events.size()) out.resend_pending_at.push_back(pending);
+			}
 		}
 		// ---- oracle (1): rules for the handlers of the intervened object
 		if (!threw && !out.inconclusive && R.iv_done && !R.iv_skipped && R.iv_kind != 5 && base)
@@ -631,6 +655,14 @@ Outcome run_scn(int id, int param, int k, int kind, int objsel, bool c12, Outcom
 			if (std::size_t(k) < base->inflight_at.size() && base->inflight_at[std::size_t(k)] > 0 && (x.kind == K_TCP || x.kind == K_UDP || x.kind == K_ACC)) out.nontrivial = true;
 		}
 		if (R.iv_kind == 5 && R.threw) out.nontrivial = true;
+		// ---- a move is transparent: the object's connection, its queued and parked segments and everything else carry on
+		// exactly as in the run without it (same packets, same bytes read, same final time)
+		if (R.iv_done && !R.iv_skipped && R.iv_kind == 4 && base && std::size_t(k) < base->resend_pending_at.size() && base->resend_pending_at[std::size_t(k)] > 0) out.move_with_resend_pending = true;
+		if (!threw && !out.inconclusive && R.iv_done && !R.iv_skipped && R.iv_kind == 4 && base && !R.iv2_applied && R.err.empty())
+		{
+			if (out.bytes_read != base->bytes_read || out.nevents != base->nevents || out.main_end != base->main_end)
+				R.fail(fmt("moving the socket changed the run: %lld bytes read (%lld without the move), %zu packet events (%zu), quiescent at %lld ns (%lld)", out.bytes_read, base->bytes_read, out.nevents, base->nevents, out.main_end, base->main_end));
+		}
 		// ---- scenario 22: a cancelled, destroyed or re-armed timer that nobody waits on is silent -- the simulation must
 		// not wake up for its old expiry (a stale queue entry; after destruction a dangling one)
 		if (id == 22 && !threw && !out.inconclusive && R.iv_done && !R.iv_skipped && base && R.iv_obj == targets[0] && (R.iv_kind == 0 || R.iv_kind == 2 || R.iv_kind == 3)
@@ -710,6 +742,7 @@ Verdict run_case(Case const& c, Ctx& ctx)
 	ctx.label(std::string("iv_") + kn[kind]);
 	ctx.label(fmt("scn_%d", id));
 	if (o.second_applied) ctx.label("two_interventions");
+	if (o.move_with_resend_pending) ctx.label("move_with_resend_pending");
 	v.nontrivial = o.nontrivial;
 	if (!o.err.empty()) { Verdict f = Verdict::fail(c12 ? "safety" : "handler_contract", fmt("scenario %d, boundary %d, %s on object %d%s: ", id, k, kn[kind], obj, o.second_applied ? fmt(", then %s on object %d %d boundaries later", kn[second.kind], second.obj, second.d + 1).c_str() : "") + o.err); f.nontrivial = v.nontrivial; return f; }
 	return v;
